@@ -134,6 +134,8 @@ fn tokenize_a2ml(filename: &Filename, input: &str) -> Result<(Vec<TokenType>, St
 
     while bytepos < datalen {
         let startpos = bytepos;
+        #[cfg(feature = "verif_hooks")]
+        crate::verif_hooks::tick();
         let c = input_bytes[bytepos];
 
         if input_bytes[bytepos].is_ascii_whitespace() {
@@ -263,6 +265,8 @@ fn tokenize_include(
     let mut fname_idx_start = 0;
     let fname_idx_end;
     loop {
+        #[cfg(feature = "verif_hooks")]
+        crate::verif_hooks::tick();
         let c = if *bytepos < datalen {
             input_bytes[*bytepos]
         } else {
